@@ -66,11 +66,21 @@ type OracleFail struct {
 	Detail   string `json:"detail"`
 }
 
+// ModelCheck: a Lean-defined oracle evaluated by the model driver on the implementation's output.
+// The driver must answer "ok"; any other answer ("fail:<clause> …") is a violation of Property.
+type ModelCheck struct {
+	Line     string
+	Property string
+}
+
 type ImplResult struct {
-	Out     string       // canonical output (compared with the model's line)
-	NoModel bool         // this case has no model counterpart (oracle only)
-	Fails   []OracleFail // property violations observed on the implementation
-	Key     string       // non-triviality key ("" = trivial case)
+	Out       string       // canonical output (compared with the model's line)
+	NoModel   bool         // this case has no model counterpart (oracle only)
+	Fails     []OracleFail // property violations observed on the implementation
+	Key       string       // non-triviality key ("" = trivial case)
+	ModelLine string       // protocol line for the model when it is not Case.Line (e.g. derived from the real parse)
+	Checks    []ModelCheck // Lean-defined oracles to run on this case's real output
+	Stats     []string     // counters to bump in Result.Stats
 }
 
 type Disagreement struct {
@@ -310,16 +320,46 @@ func RunComponent(c *Component, tier string, seed uint64, driver string, corpus 
 		if impl[i].NoModel || noModel {
 			continue
 		}
-		lines = append(lines, cs.Line(c.Name))
+		if impl[i].ModelLine != "" {
+			lines = append(lines, impl[i].ModelLine)
+		} else {
+			lines = append(lines, cs.Line(c.Name))
+		}
 		lineIdx = append(lineIdx, i)
 	}
+	nMain := len(lines)
+	type chkRef struct{ i, k int }
+	var chkIdx []chkRef
+	if !noModel {
+		for i := range cases {
+			for k, ch := range impl[i].Checks {
+				lines = append(lines, ch.Line)
+				chkIdx = append(chkIdx, chkRef{i, k})
+			}
+		}
+	}
 	model, err := runDriverParallel(driver, lines)
+	if err == nil {
+		for j, ref := range chkIdx {
+			resp := model[nMain+j]
+			res.Stats["lean_oracle_checks"]++
+			if resp != "ok" {
+				clause := resp
+				if sp := strings.IndexByte(clause, ' '); sp >= 0 {
+					clause = clause[:sp]
+				}
+				clause = strings.TrimPrefix(clause, "fail:")
+				impl[ref.i].Fails = append(impl[ref.i].Fails, OracleFail{Property: impl[ref.i].Checks[ref.k].Property, Clause: clause, Detail: resp})
+			}
+		}
+		lines = lines[:nMain]
+	}
 	if err != nil {
 		res.Notes = append(res.Notes, "driver-error: "+err.Error())
 		res.NDisagree++
 		res.Disagreements = append(res.Disagreements, Disagreement{Component: c.Name, Case: Case{Op: "driver-error"}, Impl: "", Model: err.Error()})
 	}
-	res.Compared = len(lines)
+	res.Compared = nMain
 	distinct := map[uint64]struct{}{}
 	for i, cs := range cases {
 		res.OpCounts[cs.Op]++
@@ -328,6 +368,9 @@ func RunComponent(c *Component, tier string, seed uint64, driver string, corpus 
 		}
 		if impl[i].Key != "" {
 			distinct[hashKey(cs.Op+"|"+impl[i].Key)] = struct{}{}
+		}
+		for _, st := range impl[i].Stats {
+			res.Stats[st]++
 		}
 		for _, f := range impl[i].Fails {
 			res.NViolations++
